@@ -257,4 +257,16 @@ CHECKS = {
                  extra=FX_EXTRA, instrument={"files": FX_INSTR["files"] + [{"path": "pkg/hook/hook.go", "touchcalls": ["os.WriteFile", "os.Remove", "os.ReadFile"]}]}),
         ],
     },
+    "C09": {
+        "level": "model_checking",
+        "engine": "E2",
+        "technique": "exhaustive enumeration of binding option vectors through the real end-to-end path (informer -> controllers -> UpdateSnapshots -> JSON file read by the hook) vs a reference renderer",
+        "level_text": "For each of 48 option vectors (jqFilter x keepFullObjectsInMemory x includeSnapshotsFrom {none, itself, another binding} x group x snapshots included by the schedule / validating / mutating / conversion bindings) a hook is loaded into the real operator (scheduler-controlled, default schedule, hub and process stand-in) and start-up, Added / Modified / Deleted changes, a tick, two admission requests and a conversion request are played; every binding context read from the real BINDING_CONTEXT_PATH file (onStartup, Synchronization, Event x3, Group, Schedule, Validating, Mutating, Conversion) is checked against a reference renderer written from docs/src/HOOKS.md: required / forbidden keys per type, filterResult equal to the jq result of that very object, object present iff full objects are kept, snapshots present iff the binding includes snapshots and with exactly the documented keys; every kind of context must have been delivered.",
+        "level_note": "Trusted: hub and stand-in, gojq for the reference filterResult, the reference renderer. Snapshot contents are C02's subject; v0 rendering is exercised by C06 (v0 hook in the start-up sets).",
+        "rule": "product enumeration of option vectors, one scripted event history each; non-trivial = any non-default option; distinct = distinct option vector",
+        "parts": [
+            part("c09", "pkg/shell-operator", "TestVerifC09", ["zz_verif_c09_test.go", "zz_verif_c03_test.go", "zz_verif_fixture_test.go"], shards={"quick": 16, "thorough": 16},
+                 extra=OP_EXTRA, instrument=OP_INSTR, gomaxprocs=1),
+        ],
+    },
 }
